@@ -620,7 +620,7 @@ def blocks(tier):
     out.append({"space": "rewrite", "tier": tier})
     out.append({"space": "relocate", "tier": tier})
     # one source of more than 2^20 samples per direction (beyond any plausible 'long signal' threshold of an implementation)
-    out.append({"space": "resample_long", "src": 8000, "tgt": 16000})
+    out.append({"space": "resample_long", "src": 8000, "tgt": 32000})
     out.append({"space": "resample_long", "src": 8000, "tgt": 2000})
     for src in c["resample_rates"]:
         out.append({"space": "resample", "tier": tier, "src": src})
